@@ -138,6 +138,20 @@ def run(ctx):
             dtz[len(ditems)] = ['America/New_York', 'Europe/Berlin', 'Australia/Sydney', 'UTC']
             ditems.append((e, t, {certurl: keys[0]['chain']}))
     verify_stage(ctx, ditems, tz=dtz)
+    # 4b'. the smallest windows: expires == date (one instant), expires = date + 1
+    wops, wmeta = [], []
+    for ver in VERS:
+        for life in (0, 1):
+            e = rand_exchange(rng, ver, payload=rbytes(rng, 20))
+            wops.append(f'sxg.sign {exs(e)} 16 {keys[0]["cert"]} {keys[0]["key"]} {hexs(certurl)} {hexs(vurl)} {date} {date + life}')
+            wmeta.append(life)
+    witems = []
+    for r, life in zip(ctx.go(wops), wmeta):
+        e = parse_ex(r) if r else None
+        if not e: continue
+        for t in ((date, 0), (date + life, 0), (date - 1, 999999999), (date + life, 1), (date, 500000000)):
+            witems.append((e, t, {certurl: keys[0]['chain']}))
+    verify_stage(ctx, witems)
     # 4c. inputs outside the model's domain (header names with non-ASCII letters, in either case; the model folds ASCII only): the
     #     property's own round trip on the real code alone -- what the library agreed to sign and write reads back with the same fields
     #     and the same verdict, or it is refused at signing / writing time
